@@ -683,6 +683,13 @@ Theorem handle_closed fs src p dt : is_path src p ->
   end /\ o_given (load_surfer fs src dt) = None.
 Proof. intros [-> | ->]; cbn; unfold load_path; destruct (fs p); cbn; repeat split; reflexivity. Qed.
 
+(** the outcome is a function of what the path contains NOW: whatever the
+    path contained before, whatever was loaded before (no memory between
+    calls) - two file systems that agree on [p] give the same outcome *)
+Theorem load_current_content fs1 fs2 src p dt : is_path src p ->
+  fs1 p = fs2 p -> load_surfer fs1 src dt = load_surfer fs2 src dt.
+Proof. intros [-> | ->] E; cbn; unfold load_path; rewrite E; reflexivity. Qed.
+
 (** a caller's file object is not closed, and no file is opened *)
 Theorem fileobj_untouched fs h dt :
   o_opened (load_surfer fs (FileObj h) dt) = None /\
